@@ -7,7 +7,7 @@ from concurrent.futures import ThreadPoolExecutor
 
 from . import tlc
 
-CONSTS = dict(MaxVersion=1000, MaxHits=100000, MaxPolls=1000000, SharedConfigStore=False)
+CONSTS = dict(MaxVersion=1000, MaxHits=100000, MaxPolls=1000000, SharedConfigStore=False, ForgetsOnResume=False)
 INVS = ['NothingAfterShutdown', 'NoSpuriousSnapshots', 'HashIsReceivedConfig']
 
 
@@ -42,14 +42,19 @@ def run_script(script):
 
 
 def e2e_leg(c, rng, n, kind='end-to-end'):
-    c.mc('DeepAgent', dict(constants=dict(MaxVersion=2, MaxHits=3, MaxPolls=3, SharedConfigStore=False),
+    c.mc('DeepAgent', dict(constants=dict(MaxVersion=2, MaxHits=3, MaxPolls=3, SharedConfigStore=False, ForgetsOnResume=False),
                            invariants=INVS + ['OnlyOfferedVersions', 'QuietWhenStopped', 'HashMeansInstalled'],
                            deadlock=False),
          label='composition, 2 versions, 3 hits, 3 polls, restarts',
-         must_cover=['PollResp', 'Apply', 'Hit', 'Deliver', 'ShutdownEnd', 'Restart'])
-    c.mc_expect_violation('DeepAgent', dict(constants=dict(MaxVersion=1, MaxHits=1, MaxPolls=3, SharedConfigStore=True),
+         must_cover=['PollResp', 'Apply', 'Hit', 'Deliver', 'ShutdownEnd', 'Restart', 'Resume'])
+    c.mc_expect_violation('DeepAgent', dict(constants=dict(MaxVersion=1, MaxHits=1, MaxPolls=3, SharedConfigStore=True,
+                                                           ForgetsOnResume=False),
                                             invariants=['HashMeansInstalled'], deadlock=False),
                           'deviation SharedConfigStore', what='HashMeansInstalled')
+    c.mc_expect_violation('DeepAgent', dict(constants=dict(MaxVersion=1, MaxHits=1, MaxPolls=3, SharedConfigStore=False,
+                                                           ForgetsOnResume=True),
+                                            invariants=['HashMeansInstalled'], deadlock=False),
+                          'deviation ForgetsOnResume', what='HashMeansInstalled')
     scripts = [random_script(rng) for _ in range(n)]
     with ThreadPoolExecutor(6) as ex:
         results = list(ex.map(run_script, scripts))
@@ -93,10 +98,13 @@ def _run_sub(args, env_extra=None, timeout=300):
     return subprocess.run(args, cwd=tlc.VERIF, env=env, stdout=subprocess.PIPE, stderr=subprocess.PIPE, timeout=timeout)
 
 
-def two_lives_leg(c):
+def two_lives_leg(c, same_object=False):
     """deep.start() / shutdown() twice in one process against a service whose configuration does not change: the second
-    agent knows no configuration yet, so it must ask for it (hash 0), get it and act on it. Trace judged by Trace_AgentIT."""
-    p = _run_sub([sys.executable, '-m', 'harness.twolives', '3'], timeout=180)
+    agent knows no configuration yet, so it must ask for it (hash 0), get it and act on it. Trace judged by Trace_AgentIT.
+
+    same_object: the later lives are Deep.start() on the SAME agent object, which still holds the configuration (the
+    service answers 'no change') and a tracepoint registered in code during the first life: both must be acted on again."""
+    p = _run_sub([sys.executable, '-m', 'harness.twolives', '3'] + (['same'] if same_object else []), timeout=180)
     res = None
     for line in p.stdout.decode('utf-8', 'replace').split('\n'):
         if line.startswith('RESULT '):
@@ -117,13 +125,15 @@ def two_lives_leg(c):
     for i, life in enumerate(res['lives'], 1):
         if life['result'] != 2:
             problems.append('life %d: host result %r' % (i, life['result']))
-        if life['snapshots'] != 1:
-            problems.append('life %d: %d snapshot(s) delivered for one hit of the configured line' % (i, life['snapshots']))
+        if life['snapshots'] != life.get('expected', 1):
+            problems.append('life %d: %d snapshot(s) delivered for one hit of the configured line, expected %d (%s)'
+                            % (i, life['snapshots'], life.get('expected', 1), life.get('expected_from', 'the service tracepoint')))
     if problems:
         path = c.save_replay({'direction': 'C2S', 'module': 'Trace_AgentIT', 'kind': 'two-lives', 'result': res,
-                              'problems': problems})
-        c.violation('two lives of the agent in one process (deep.start, hit, shutdown, again): %s' % problems[:3], path,
-                    signature={'lives': 'shared-config-store'})
+                              'same_object': same_object, 'problems': problems})
+        c.violation('%s (start, hit, shutdown, again): %s' % (
+            'several lives of ONE agent object' if same_object else 'two lives of the agent in one process', problems[:3]),
+            path, signature={'lives': 'same-object-resume' if same_object else 'shared-config-store'})
 
 
 def repo_it_leg(c):
